@@ -90,6 +90,7 @@ type scriptOut struct {
 	Ctx       map[string]int `json:"ctx,omitempty"`     // context flavour -> traces recorded under it
 	Inconcl   []string       `json:"inconcl,omitempty"` // undecided probes
 	Reuse     string         `json:"reuse,omitempty"`   // config reuse mode of this script in this process
+	Shapes    map[string]int `json:"shapes,omitempty"`  // call shape -> calls of the reference trace
 	SlowCalls int            `json:"slow_calls,omitempty"`
 	Detail    []rec          `json:"detail,omitempty"`
 	Probe     map[string]any `json:"probe,omitempty"`
@@ -147,7 +148,7 @@ func getProc() *procEnv {
 		for i := range p.sigs {
 			p.sigIdx[p.sigs[i].Name] = &p.sigs[i]
 		}
-		bin := wasiproxy.Build(p.sigs, 1, 1)
+		bin := buildGuest(p.sigs)
 		for _, e := range []string{"interpreter", "compiler"} {
 			var cfg wazero.RuntimeConfig
 			if e == "interpreter" {
@@ -507,7 +508,7 @@ const controlRounds = 1000
 // forever, so the process gives up after two of them (see runScript).
 func (in *inst) callGuarded(c *wcall) (res []uint64, err error, blocked bool) {
 	done := make(chan struct{})
-	fn := in.mod.ExportedFunction(c.Fn)
+	fn := in.mod.ExportedFunction(exportName(c.Fn, c.Shape))
 	go func() {
 		defer close(done)
 		res, err = fn.Call(in.ctx, c.Args...)
@@ -1086,6 +1087,20 @@ func (p *procEnv) runScript(sc *scriptCase) *scriptOut {
 		labels = append(labels, l)
 	}
 	sort.Strings(labels)
+	interpAgree := true
+	for _, l := range []string{"interpreter/B", "interpreter/C"} {
+		t := traces[l]
+		if len(t) != len(ref) {
+			interpAgree = false
+			continue
+		}
+		for i := range t {
+			if !recEqual(&t[i], &ref[i]) {
+				interpAgree = false
+				break
+			}
+		}
+	}
 	for _, l := range labels {
 		if l == "interpreter/A" {
 			continue
@@ -1135,11 +1150,13 @@ func (p *procEnv) runScript(sc *scriptCase) *scriptOut {
 						}
 					}
 				}
-				if reuse != "fresh-per-instance" && !strings.HasPrefix(dim, "contexts") {
+				// The reuse mode goes into the signature when it can be the cause: not
+				// for a pure engine difference (all interpreter instances agree).
+				if reuse != "fresh-per-instance" && !strings.HasPrefix(dim, "contexts") && !(dim == "engines" && interpAgree) {
 					dim += "[config:" + reuse + "]"
 				}
 				cc.find(fnTag(&calls[i])+":"+d+":differs-across-"+dim,
-					fmt.Sprintf("[config reuse mode: "+reuse+"] call %d %s: %s of %s (called under a %s context) differs from interpreter/A (context.Background()) in the same process", i, calls[i].Fn, d, l, flavourOf[l]),
+					fmt.Sprintf("[config reuse mode: "+reuse+"] call %d %s: %s of %s (called under a %s context) differs from interpreter/A (context.Background()) in the same process", i, exportName(calls[i].Fn, calls[i].Shape), d, l, flavourOf[l]),
 					i, l+" ctx="+flavourOf[l], t[i], ref[i])
 				break
 			}
@@ -1149,6 +1166,17 @@ func (p *procEnv) runScript(sc *scriptCase) *scriptOut {
 		}
 	}
 	if sc.Stats {
+		so.Shapes = map[string]int{}
+		for i := range ref {
+			sh := calls[i].Shape
+			if sh == "" {
+				sh = "flat"
+			}
+			so.Shapes[sh]++
+			if calls[i].Note == "all-ones-args" {
+				so.Shapes["all_ones_pattern"]++
+			}
+		}
 		so.Stats = map[string]int{}
 		for i := range ref {
 			so.Stats[fnTag(&calls[i])+" "+ref[i].Ret]++
@@ -1239,7 +1267,7 @@ func rawCall(in *inst, c *wcall) string {
 			copy(mem[w.Off:], w.Data)
 		}
 	}
-	res, err := in.mod.ExportedFunction(c.Fn).Call(in.ctx, c.Args...)
+	res, err := in.mod.ExportedFunction(exportName(c.Fn, c.Shape)).Call(in.ctx, c.Args...)
 	switch {
 	case err != nil:
 		return errClass(err)
